@@ -936,9 +936,16 @@ impl World {
         let gid: u32 = rf[3].parse().unwrap_or(0);
         let ino: u64 = rf[4].parse().unwrap_or(0);
         let name = cname(rf[5]);
-        let res = match self.ctx_for(uid, gid, ino) {
-            Err(e) => Ok(e),
-            Ok(ctx) => {
+        // (the context translation itself may panic under an overflowing id mapping — a documented
+        // configuration precondition; it is booked as the LOOKUP's outcome like in a plain step)
+        let ctxr = std::panic::catch_unwind(std::panic::AssertUnwindSafe(|| self.ctx_for(uid, gid, ino)));
+        let res = match ctxr {
+            Err(_) => {
+                let _ = gtx.send(());
+                Ok("panic".to_string())
+            }
+            Ok(Err(e)) => Ok(e),
+            Ok(Ok(ctx)) => {
                 let vfs_b = self.vfs.clone();
                 let tb = std::thread::spawn(move || match vfs_b.lookup(&ctx, ino.into(), &name) {
                     Ok(e) => show_entry(&e),
